@@ -105,7 +105,11 @@ def setItem (cfg : Cfg) (st : Store) (self : C01.TVal) (a b : Nat) (v : Operand)
 store afterwards and the step of the operand, or the refusal -/
 def checkUniform (cfg : Cfg) (st : Store) (u : TimeUnit) (v : Operand) : Store × Except C17.Err Int :=
   let (st', vals, sc) := convertOperand cfg.uniformInPlace st (C17.factorOf u) v
-  if sc then (st', .ok 0) else (st', C17.rampStep vals)
+  if sc then (st', .ok 0)
+  else match vals with
+    | [] => (st', .error .valueError)      -- an empty operand is refused (repo fix 13e5132)
+    | [_] => (st', .ok 0)                  -- a one-element 1-d operand is broadcast: a shift
+    | _ => (st', C17.rampStep vals)
 
 /-! ### time series: copy, arithmetic through a copy, in-place arithmetic -/
 structure Series where
